@@ -56,7 +56,7 @@ def c19NodeName (rootName : String) (root : Nat) (g : List (Nat × List (Inc × 
 def c19IsNat (s : String) : Bool := s.toNat?.isSome
 
 /-- program tokens of the harness: s/t/u/v followed by the generator seed -/
-def c19IsTok (s : String) : Bool := ["s", "t", "u", "v", "w"].any (fun c => s.startsWith c)
+def c19IsTok (s : String) : Bool := ["s", "t", "u", "v", "w", "x"].any (fun c => s.startsWith c)
 
 def stepDeterminism (op : String) (args : List String) : Option String :=
   match op, args with
@@ -81,7 +81,7 @@ def stepDeterminism (op : String) (args : List String) : Option String :=
   | "c19det", [seed, _gen, r, _keep] =>
     some (if c19IsNat (seed.drop 1).toString && c19IsTok seed && c19IsNat r then "ok same" else "bad-op")
   | "c19hist", [seed, _gen, variant, _keep] =>
-    some (if c19IsNat (seed.drop 1).toString && c19IsTok seed && ["opts", "sup", "sub", "target", "twice"].contains variant then "ok same" else "bad-op")
+    some (if c19IsNat (seed.drop 1).toString && c19IsTok seed && ["opts", "sup", "sub", "target", "twice", "gomodule"].contains variant then "ok same" else "bad-op")
   | "c19dir", [_gen, r, _dir] =>
     some (if c19IsNat r then "ok same" else "bad-op")
   | "c19ord", _ => some "bad-op"
